@@ -634,7 +634,15 @@ func c06ring(c *core.Ctx) {
 			} else {
 				c.Count("ring_link_other_ring", 1)
 			}
-			a, b := idG(h.g.Link(hs[o].g)), idS(h.s.Link(hs[o].s))
+			var a, b int
+			if r.Chance(1, 12) {
+				// the empty ring is the nil *Ring in both libraries
+				name = fmt.Sprintf("r%d.Link(nil)[empty ring]", id)
+				a, b = idG(h.g.Link(nil)), idS(h.s.Link(nil))
+				c.Count("ring_link_empty_ring", 1)
+			} else {
+				a, b = idG(h.g.Link(hs[o].g)), idS(h.s.Link(hs[o].s))
+			}
 			nontrivial = true
 			if a != b {
 				fail("Link:return", fmt.Sprintf("%s returned element %d, container/ring %d", name, a, b))
